@@ -1,21 +1,108 @@
 (* Properties_C20.v — --pedantic only rejects.
-   PARTIAL: proved for the lexer (every text the pedantic lexer accepts gets the same tokens without the
-   option).  The parser and the evaluator consult the flag at four more sites (ELSE IF, casts, assignment
-   and INPUT to an undeclared name); for them the property is checked by running every generated program
-   under both configurations (identical stdout, stderr, exit status, files) and by the correspondence. *)
-From PE2 Require Import Lexer Lemmas_Lexer.
+   Proved for the whole launcher (lexer, parser, evaluator, run_file): for every program text, input, file
+   system, random sequence, budget and fuel, running with the option gives either exactly the observation of
+   running without it (stdout, diagnostics, exit status, files, status), or one pedantic Error with exit
+   status 1.  Lex- and parse-time rejections leave the file system untouched and print nothing but the
+   parser warnings and the blank line before the diagnostic.  Each of the five construct sites rejects. *)
+From PE2 Require Import Run Lemmas_Lexer Lemmas_PedParser Lemmas_Ped Lemmas_PedRun.
+Local Open Scope Z_scope.
 
-Theorem C20_lexer_only_rejects : forall input toks, lex true input = inl toks -> lex false input = inl toks.
-Proof. exact lex_ped_only_rejects. Qed.
+Theorem C20_run_file_only_rejects : forall lim fuel content stdin fs rnd,
+  run_file true lim fuel content stdin fs rnd = run_file false lim fuel content stdin fs rnd
+  \/ (let o := run_file true lim fuel content stdin fs rnd in
+      ob_exit o = 1 /\ ob_status o = SDone /\ exists d, ob_diags o = [d] /\ d_kind d = DPedantic).
+Proof. exact run_file_ped_only_rejects. Qed.
+Print Assumptions C20_run_file_only_rejects.
+
+(* accepted programs mean the same: no pedantic diagnostic => identical observation *)
+Theorem C20_accepted_identical : forall lim fuel content stdin fs rnd,
+  (forall d, In d (ob_diags (run_file true lim fuel content stdin fs rnd)) -> d_kind d <> DPedantic) ->
+  run_file true lim fuel content stdin fs rnd = run_file false lim fuel content stdin fs rnd.
+Proof.
+  intros lim fuel content stdin fs rnd H.
+  destruct (run_file_ped_only_rejects lim fuel content stdin fs rnd) as [E|[_ [_ [d [Hd Hk]]]]]; [exact E|].
+  exfalso. apply (H d); [rewrite Hd; left; reflexivity|exact Hk].
+Qed.
+Print Assumptions C20_accepted_identical.
+
+Theorem C20_evaluator_only_rejects : forall repl lim fuel bl c s,
+  run_block true repl lim fuel bl c s = run_block false repl lim fuel bl c s
+  \/ exists d s', run_block true repl lim fuel bl c s = (Fail (FErr d), s') /\ d_kind d = DPedantic /\ d_cls d = EOther.
+Proof. exact run_block_ped_only_rejects. Qed.
+Print Assumptions C20_evaluator_only_rejects.
+
+Theorem C20_parser_only_rejects : forall ts,
+  parse_program true ts = parse_program false ts \/ exists t s, parse_program true ts = PFail LexPedantic t s.
+Proof. exact parse_program_ped_only_rejects. Qed.
+Print Assumptions C20_parser_only_rejects.
+
+Theorem C20_lexer_only_rejects : forall input,
+  lex true input = lex false input \/ exists e, lex true input = inr e /\ le_kind e = LexPedantic.
+Proof. exact lex_rel. Qed.
 Print Assumptions C20_lexer_only_rejects.
 
 Theorem C20_lexer_step_only_rejects : forall s toks s' toks', lex_step true s toks = LOk s' toks' -> lex_step false s toks = LOk s' toks'.
 Proof. exact lex_step_ped. Qed.
 Print Assumptions C20_lexer_step_only_rejects.
 
+(* rejected before anything executes *)
+Theorem C20_lex_time_rejection : forall lim fuel content stdin fs rnd e,
+  lex true (content ++ [ch_nl]) = inr e ->
+  run_file true lim fuel content stdin fs rnd = mkObs [ch_nl] [diag_of_lex e] 1 fs SDone [].
+Proof. exact lex_time_rejection. Qed.
+Print Assumptions C20_lex_time_rejection.
+
+Theorem C20_parse_time_rejection : forall lim fuel content stdin fs rnd toks k t ps,
+  lex true (content ++ [ch_nl]) = inl toks -> parse_program true toks = PFail k t ps ->
+  run_file true lim fuel content stdin fs rnd =
+  mkObs (List.concat (map warning_text (rev (p_warns ps))) ++ [ch_nl]) [diag_of_parse k t] 1 fs SDone [].
+Proof. exact parse_time_rejection. Qed.
+Print Assumptions C20_parse_time_rejection.
+
+(* the five sites *)
+Theorem C20_no_break_continue_token : forall input toks,
+  lex true input = inl toks -> Forall (fun t => tt t <> TBREAK /\ tt t <> TCONTINUE) toks.
+Proof. exact lex_ped_no_break_continue. Qed.
+Print Assumptions C20_no_break_continue_token.
+
+Theorem C20_break_continue_rejected : forall s toks s1 w,
+  word_loop (S (List.length (rest s))) s [] = (s1, w) ->
+  lookup_kw w keywords = Some TBREAK \/ lookup_kw w keywords = Some TCONTINUE ->
+  make_word true s toks = LErr (mkLexErr LexPedantic (line s1) (col s)).
+Proof. exact break_continue_rejected. Qed.
+Print Assumptions C20_break_continue_rejected.
+
+Theorem C20_cast_rejected : forall self s, parse_cast_body true self s = PFail LexPedantic (cur s) s.
+Proof. exact cast_rejected. Qed.
+Print Assumptions C20_cast_rejected.
+
+Theorem C20_else_if_rejected : forall self acc s,
+  is_t s TELSE = true -> is_t (adv s) TIF = true ->
+  parse_if_tail_body true self acc s = PFail LexPedantic (cur (adv s)) (adv s).
+Proof. exact else_if_rejected. Qed.
+Print Assumptions C20_else_if_rejected.
+
+Theorem C20_undeclared_rejected : forall t s,
+  ped_guard true t s = (Fail (FErr (mkDiag DPedantic (tline t) (tcol t) EOther [])), s).
+Proof. exact undeclared_rejected. Qed.
+Print Assumptions C20_undeclared_rejected.
+
+(* non-vacuity: both alternatives of the main theorem occur *)
 Example C20_break_rejected :
   (match lex true (str_of_string "WHILE TRUE
   BREAK
 ENDWHILE") with inr e => match le_kind e with LexPedantic => true | _ => false end | _ => false end) = true /\
   (match lex false (str_of_string "BREAK") with inl _ => true | _ => false end) = true.
 Proof. vm_compute. split; reflexivity. Qed.
+
+Definition c20_lim : limits := mkLim 100000 1000 100000 100000.
+Example C20_undeclared_assignment_runs_both_ways :
+  let p := str_of_string "OUTPUT 1
+x <- 2
+OUTPUT x" in
+  ob_exit (run_file false c20_lim 200 p [] [] []) = 0 /\
+  ob_exit (run_file true c20_lim 200 p [] [] []) = 1 /\
+  ob_out (run_file true c20_lim 200 p [] [] []) = str_of_string "1
+
+".
+Proof. vm_compute. repeat split; reflexivity. Qed.
